@@ -44,6 +44,22 @@ import (
 func (vfs *MemFS) searchNode(path string, slMode slMode) (
 	parent *dirNode, child node, pi *avfs.PathIterator[*MemFS], err error,
 ) {
+	for {
+		// The walk is done again if an entry has been moved meanwhile :
+		// what was read before and after the move may not belong to the same tree.
+		seq := vfs.renameSeqNow()
+
+		parent, child, pi, err = vfs.searchNodeOnce(path, slMode)
+		if vfs.renameSeqNow() == seq {
+			return parent, child, pi, err
+		}
+	}
+}
+
+// searchNodeOnce is searchNode without the check that no entry has been moved during the walk.
+func (vfs *MemFS) searchNodeOnce(path string, slMode slMode) (
+	parent *dirNode, child node, pi *avfs.PathIterator[*MemFS], err error,
+) {
 	slCount := 0
 	slResolved := false
 
@@ -234,10 +250,19 @@ func (vfs *MemFS) createSymlink(parent *dirNode, name, link string) *symlinkNode
 	return child
 }
 
+// renameSeqNow returns the number of entries moved by Rename (or symbolic links removed) so far.
+// A call reads it before its path walks and again once it holds its locks :
+// if an entry has been moved in between, the paths may no longer lead to what the walks found.
+func (vfs *MemFS) renameSeqNow() uint64 {
+	return atomic.LoadUint64(vfs.renameSeq)
+}
+
 // lockedNode returns the node named name, locked, once it is known to be still in its directory :
 // the directory stays read locked, so that the node can't be removed or replaced, until unlock is called.
 func (vfs *MemFS) lockedNode(name string, mode slMode) (child node, unlock func(), err error) {
 	for {
+		seq := vfs.renameSeqNow()
+
 		parent, child, pi, err := vfs.searchNode(name, mode)
 		if err != vfs.err.FileExists || child == nil {
 			return nil, nil, err
@@ -253,7 +278,7 @@ func (vfs *MemFS) lockedNode(name string, mode slMode) (child node, unlock func(
 		verifYield(&parent.mu, false)
 		parent.mu.RLock()
 
-		if parent.removed || parent.children[pi.Part()] != child {
+		if parent.removed || parent.children[pi.Part()] != child || vfs.renameSeqNow() != seq {
 			// the entry has been changed by another goroutine since the path walk.
 			parent.mu.RUnlock()
 
